@@ -87,4 +87,23 @@ VF_E int tp_cast(int a) { return ch::time_point_cast<S>(TPms{MS{a}}).time_since_
 VF_E int tp_floor(int a) { return ch::floor<S>(TPms{MS{a}}).time_since_epoch().count(); }
 VF_E int tp_ceil(int a) { return ch::ceil<S>(TPms{MS{a}}).time_since_epoch().count(); }
 VF_E int tp_round(int a) { return ch::round<S>(TPms{MS{a}}).time_since_epoch().count(); }
+
+// all six time_point relations across periods, both operand orders (each operator is a separate function body)
+#define TPREL(X) X(lt, <) X(le, <=) X(gt, >) X(ge, >=) X(eq, ==) X(ne, !=)
+#define X(n, op) VF_E bool tpx_##n(int a, int b) { return TPms{MS{a}} op TPs{S{b}}; } VF_E bool tpy_##n(int b, int a) { return TPs{S{b}} op TPms{MS{a}}; }
+TPREL(X)
+#undef X
+// unsigned representations: the rounding casts must not go through a difference that wraps
+using UMS16 = D<unsigned short, milli>; using US16 = D<unsigned short, sec>; using UMIN16 = D<unsigned short, minute>;
+VF_E unsigned short u_ms_s_cast(unsigned short c) { return ch::duration_cast<US16>(UMS16{c}).count(); }
+VF_E unsigned short u_ms_s_floor(unsigned short c) { return ch::floor<US16>(UMS16{c}).count(); }
+VF_E unsigned short u_ms_s_ceil(unsigned short c) { return ch::ceil<US16>(UMS16{c}).count(); }
+VF_E unsigned short u_ms_s_round(unsigned short c) { return ch::round<US16>(UMS16{c}).count(); }
+VF_E unsigned short u_s_min_floor(unsigned short c) { return ch::floor<UMIN16>(US16{c}).count(); }
+VF_E unsigned short u_s_min_ceil(unsigned short c) { return ch::ceil<UMIN16>(US16{c}).count(); }
+VF_E unsigned short u_s_min_round(unsigned short c) { return ch::round<UMIN16>(US16{c}).count(); }
+using UMS32 = D<unsigned, milli>; using US32 = D<unsigned, sec>;
+VF_E unsigned u32_ms_s_round(unsigned c) { return ch::round<US32>(UMS32{c}).count(); }
+VF_E unsigned u32_ms_s_floor(unsigned c) { return ch::floor<US32>(UMS32{c}).count(); }
+VF_E unsigned u32_ms_s_ceil(unsigned c) { return ch::ceil<US32>(UMS32{c}).count(); }
 }
